@@ -71,17 +71,23 @@ def build_model(spec):
         def forward(self, x):
             return torch.tanh(self.conv(x) * 3.0)[:, :, 0, :]        # [N, C, W/8]
 
-    torch.manual_seed(1000 + seed * 17 + depth * 3 + heads)
-    enc = LineSelfAttentionEncoder(dropout=0.0, max_seq_len=160 if wide else 64, dim_model=width, dim_ff=2 * width, nb_heads=heads, nb_layers=1)
-    net = TransformerOCR(Frontend(), enc, num_classes=NCLS, dropout=0.0, nb_layers=depth, dim_model=width, dim_ff=2 * width,
-                         max_seq_len=300 if wide else 40, nb_heads=heads)
+    def fresh():
+        torch.manual_seed(1000 + seed * 17 + depth * 3 + heads)
+        enc = LineSelfAttentionEncoder(dropout=0.0, max_seq_len=160 if wide else 64, dim_model=width, dim_ff=2 * width, nb_heads=heads, nb_layers=1)
+        net = TransformerOCR(Frontend(), enc, num_classes=NCLS, dropout=0.0, nb_layers=depth, dim_model=width, dim_ff=2 * width,
+                             max_seq_len=300 if wide else 40, nb_heads=heads)
+        with torch.no_grad():
+            for p in net.parameters():
+                if p.dim() > 1:
+                    p.mul_(2.5)                 # larger weights: the scores depend visibly on input, step and fed-back symbols
+            net.dec_out_proj.weight.mul_(1.5)
+            net.dec_out_proj.bias.zero_()
+            net.dec_out_proj.bias[IGN] = -3.0 if seed % 2 == 0 else 0.3      # odd seeds: the ignore symbol is emitted now and then
+        net.eval()
+        return net
+
+    net = fresh()
     with torch.no_grad():
-        for p in net.parameters():
-            if p.dim() > 1:
-                p.mul_(2.5)                 # larger weights: the scores depend visibly on input, step and fed-back symbols
-        net.dec_out_proj.weight.mul_(1.5)
-        net.dec_out_proj.bias.zero_()
-        net.dec_out_proj.bias[IGN] = -3.0 if seed % 2 == 0 else 0.3      # odd seeds: the ignore symbol is emitted now and then
         # calibrate the end-of-line bias so that lines finish at various steps: decode every batch once with the end-of-line symbol
         # disabled and put its bias at the 30 % quantile of (best other score - end-of-line score) over all lines and steps
         net.dec_out_proj.bias[SB] = -1e4
@@ -96,12 +102,12 @@ def build_model(spec):
             sb = lg[:, :, SB] + 1e4
             lg[:, :, SB] = -np.inf
             gaps.append((lg.max(axis=-1) - sb).reshape(-1))
-        net.dec_out_proj.bias[SB] = float(np.quantile(np.concatenate(gaps), 0.6 if wide else 0.3))
-        for layer in net.trans_decoder.layers:          # leave no cache behind
-            layer.memory_tgt = None
-            layer.self_attn.linear_cache = None
-            layer.multihead_attn.linear_cache = None
-    net.eval()
+        bias = float(np.quantile(np.concatenate(gaps), 0.6 if wide else 0.3))
+    # the calibration copy has decoded batches (its caches are filled): the model handed out is a second, never-used construction with the
+    # same weights (same seed) and the calibrated bias - no knowledge of how the library names or stores its caches is needed
+    net = fresh()
+    with torch.no_grad():
+        net.dec_out_proj.bias[SB] = bias
     return net
 
 
@@ -113,15 +119,37 @@ def pristine(spec):
 
 
 def make_engine(net):
+    """a TransformerEngineLineOCR around `net`: the real constructor runs (engine definition from a generated JSON file) with only the network
+    construction and the checkpoint loading replaced; if the constructor cannot be driven that way, the attributes it sets are set by hand"""
+    import contextlib
+    import io
+    import json
+    import os
+    import unittest.mock
     import torch
-    from pero_ocr.ocr_engine.transformer_ocr_engine import TransformerEngineLineOCR
-    e = object.__new__(TransformerEngineLineOCR)
-    e.device = torch.device('cpu')
-    e.characters = ['a', 'b', 'c', '​', '']
-    e.sentence_boundary_ind = len(e.characters) - 2
-    e.ignore_ind = len(e.characters) - 1
-    e.net = net
-    return e
+    from pero_ocr.ocr_engine import transformer_ocr_engine as toe
+    try:
+        d = '/verif/.cache/stubs'
+        os.makedirs(d, exist_ok=True)
+        js = os.path.join(d, f'c20-engine-{os.getpid()}.json')
+        with open(js, 'w') as f:
+            json.dump({'line_px_height': H, 'line_vertical_scale': 1.0, 'checkpoint': 'none.pt', 'characters': ['a', 'b', 'c'], 'net_name': 'stub'}, f)
+        with unittest.mock.patch.object(toe.transformer, 'build_net', lambda **kw: net), \
+                unittest.mock.patch.object(toe.torch, 'load', lambda *a, **kw: net.state_dict()), \
+                contextlib.redirect_stdout(io.StringIO()):
+            e = toe.TransformerEngineLineOCR(js, torch.device('cpu'), batch_size=4)
+        os.remove(js)
+        if e.net is not net or len(e.characters) != NCLS:
+            raise RuntimeError('unexpected engine')
+        return e
+    except Exception:  # noqa
+        e = object.__new__(toe.TransformerEngineLineOCR)
+        e.device = torch.device('cpu')
+        e.characters = ['a', 'b', 'c', '​', '']
+        e.sentence_boundary_ind = len(e.characters) - 2
+        e.ignore_ind = len(e.characters) - 1
+        e.net = net
+        return e
 
 
 def line_image(seed, width):
@@ -196,9 +224,14 @@ def alone(spec, seed, width):
 def cache_state(net):
     import hashlib
     h = hashlib.blake2b(digest_size=8)
-    for layer in net.trans_decoder.layers:
-        for t in (layer.memory_tgt, layer.self_attn.linear_cache, layer.multihead_attn.linear_cache):
-            h.update(b'-' if t is None else str(tuple(t.shape)).encode())
+    import torch
+    # every plain tensor-or-None attribute of every decoder sub-module (whatever the library calls its caches), by name and shape
+    for mname, mod in sorted(net.trans_decoder.named_modules()):
+        for k, v in sorted(vars(mod).items()):
+            if k.startswith('_') or k == 'training':
+                continue
+            if v is None or isinstance(v, torch.Tensor):
+                h.update(f'{mname}.{k}:{"-" if v is None else tuple(v.shape)}'.encode())
     return h.hexdigest()
 
 
@@ -388,16 +421,13 @@ def check_buildnet(case, ctx):
         net.dec_out_proj.bias.zero_()
     net.eval()
     no_eos(net)
+    net0 = copy.deepcopy(net)                 # a copy that never decodes: used for the teacher-forced pass
     img = np.stack([line_image(78, W)])
     with torch.no_grad(), contextlib.redirect_stdout(io.StringIO()), ctx.time_limit(600):
         eng = make_engine(net)
         outs, lg = eng.transcribe_batch(img.astype(np.float32), is_cached=True)
         lg = lg.numpy()[0]
-        for layer in net.trans_decoder.layers:
-            layer.memory_tgt = None
-            layer.self_attn.linear_cache = None
-            layer.multihead_attn.linear_cache = None
-        ref = teacher_forced(net, img, lg)
+        ref = teacher_forced(net0, img, lg)
     ctx.executed(2)
     ctx.state(('buildnet', W))
     cap = W // 4
